@@ -5,7 +5,7 @@ from props import obs_common as oc
 META = {
     "technique": "TLA+ monitor of the downstream observer (Serialize.tla: enter/exit, NoOverlap, Grammar) + TLC-checked lock-discipline model per combinator family; real combinators run under DetSched-controlled thread schedules, recorded traces validated by TLC trace checking (SerializeTrace.tla)",
     "level": "TLC proves NoOverlap and Grammar for the intended lock discipline of every combinator family (merge, merge_all/flat_map outer, zip, combine_latest, with_latest_from, amb, time/count windows) over all interleavings of 2-3 source threads, and computes which families violate them with the discipline the code implements (prediction, compared with the real runs as model drift). Each source of the real combinator is a Subject fed by its own logical thread; for every arrival order of the notifications every schedule up to the preemption bound (fewest preemptions first, plus seeded random schedules) is executed with switch points at every line of the combinator, every cooperative lock acquisition and inside the user's callbacks; every recorded enter/exit trace of the user's callbacks must satisfy the monitor.",
-    "note": "TLC 1.8; DetSched switch points are GIL-realisable points only; locks the combinators hold across downstream calls are replaced by cooperative re-entrant locks, other locks stay real; TimeoutScheduler timers are logical threads on the controlled clock",
+    "note": "TLC 1.8; DetSched switch points are GIL-realisable points only; locks the combinators hold across downstream calls are replaced by cooperative re-entrant locks, other locks stay real; TimeoutScheduler timers are logical threads on the controlled clock; the window family also runs with a source that is not a Subject (nothing but the operator takes source.lock)",
     "ref": "DESIGN.md 6 C43, 2.4, 8",
 }
 
